@@ -43,6 +43,7 @@ fn main() {
                 "C19" => dict::gen(&mut out, thorough, seed),
                 "C17" => kytea::gen(&mut out, thorough, seed),
                 "C18" => gen_pred::gen_c18(&mut out, thorough, seed),
+                "C18M" => gen_pred::gen_c18_miri(&mut out, seed),
                 "C14" => gen_pred::gen_c14(&mut out, thorough, seed),
                 "C13" => gen_pred::gen_c13(&mut out, thorough, seed),
                 "C15" => gen_sent::gen_c15(&mut out, thorough, seed),
@@ -80,6 +81,9 @@ fn main() {
                     writeln!(f, "{}\t{}", lineno + 1, e).unwrap();
                 }
                 writeln!(out, "{resp}").unwrap();
+                if std::env::var_os("VH_FLUSH").is_some() {
+                    out.flush().unwrap();
+                }
                 if let Some(f) = oracle_out.as_mut() {
                     for (prop, msg) in fails {
                         let msg = msg.replace('\n', "\\n").replace('\t', "\\t").replace('\r', "\\r");
